@@ -65,6 +65,7 @@ class ExecutorWithDependencies(ExecutorBase):
         super().__init__(max_cores=kwargs.get("max_cores", None))
         executor = create_executor(*args, **kwargs)
         self._default_cores = executor._default_cores
+        self._spawner = executor._spawner
         self._set_process(
             RaisingThread(
                 target=execute_tasks_with_dependencies,
